@@ -170,7 +170,7 @@ void harness(void)
         case K_AGAIN: strcpy(arg1, "AGAIN "); arg1[6] = t0; arg1[7] = t1; arg1[8] = t2; arg1[9] = '\0'; break;
         case K_MORE: strcpy(arg1, "MORE "); arg1[5] = t0; arg1[6] = t1; arg1[7] = t2; arg1[8] = '\0'; break;
         default: arg1[0] = t0; arg1[1] = t1; arg1[2] = t2; arg1[3] = '\0';
-                 VP_ASSUME(!(t0 == 'O' && t1 == 'K' && (t2 == 0 || t2 == ' '))); break;
+                 VP_ASSUME(!(t0 == 'O' && t1 == 'K' && (t2 == 0 || t2 == ' ')) && !(t0 == 'N' && t1 == 'O' && t2 == ' ')); break;
         }
 #if NREQ > 1
         /* a reply addressed to the bystander is this same event with the roles swapped */
@@ -199,8 +199,8 @@ void harness(void)
             case K_OK_EMPTY:
                 g.awaited &= ~(1u << ks);
                 if (is_login_type(ty) && kind == K_OK_ACCT) {
+                    vouched_now = !g.has_account;     /* the first stamp is the one that counts */
                     g.has_account = 1;
-                    vouched_now = 1;
                     expect_plus_x = g.hidden_host || g.hidden_only;
                 }
                 break;
@@ -302,6 +302,7 @@ void harness(void)
                 CL[0]->ref_mask, CL[0]->sent_mask, CL[0]->more_mask, CL[0]->ok_mask, CL[0]->modes.bits[0], R[0]->account, CL[0]->password);
 #endif
 
+#if defined(CHECK_ALL) || defined(CHECK_C01)
     /* ====================== C01: one verdict, then silence ====================== */
     for (j = 0; j < NREQ; j++) {
         VP_ASSERT(o.n_accept[j] + o.n_kill[j] <= 1, "C01: at most one final verdict per instance");
@@ -324,6 +325,9 @@ void harness(void)
     } else
         VP_ASSERT(live(0), "C01: a client without verdict stays in the table");
 
+#endif
+
+#if defined(CHECK_ALL) || defined(CHECK_C07)
     /* ====================== C07: bystander untouched ====================== */
 #if NREQ > 1
 #ifdef EV_C
@@ -337,6 +341,9 @@ void harness(void)
     }
 #endif
 
+#endif
+
+#if defined(CHECK_ALL) || defined(CHECK_C04) || defined(CHECK_C08)
     /* ====================== C04 / C08b: stray lines are no-ops ====================== */
     if (expect_noop) {
         VP_ASSERT(vp_nline == 0, "C04: a stray reply (no awaited service of a current instance) or repeated datum produces no output");
@@ -350,6 +357,9 @@ void harness(void)
                           "C04: such a reply changes no service record");
     }
 
+#endif
+
+#if defined(CHECK_ALL) || defined(CHECK_C02) || defined(CHECK_C03)
     /* ====================== C02 / C03: acceptance exactly when complete ====================== */
     if (!expect_gone && !expect_noop) {
         int complete = ghost_complete(&g);
@@ -367,6 +377,9 @@ void harness(void)
         }
     }
 
+#endif
+
+#if defined(CHECK_ALL) || defined(CHECK_C05)
     /* ====================== C05: verdict content ====================== */
     if (o.n_accept[0]) {
         VP_ASSERT((o.verdict_cmd[0] == 'R') == (g.has_account != 0), "C05: account stamp reported exactly when a login-type service vouched one");
@@ -400,6 +413,9 @@ void harness(void)
         VP_ASSERT(o.n_M[0] == 0, "C05: no user mode without a vouched account and a hiding request");
 #endif
 
+#endif
+
+#if defined(CHECK_ALL) || defined(CHECK_C06)
     /* ====================== C06: queries are timely ====================== */
     if (data_event && !expect_gone) {
         unsigned want = 0;
@@ -426,6 +442,62 @@ void harness(void)
             want |= 1u << k;
         }
         VP_ASSERT(o.queried[0] == want, "C06: exactly the services whose protocol's data is now complete are queried, not earlier and not skipped");
+        /* ... and each query carries this client's own data, within the length limits */
+        if (live(0)) {
+            char uname[USERLEN + 2];
+            const char *host = R[0]->hostname[0] ? R[0]->hostname : R[0]->text_addr;
+            unsigned q;
+            memset(uname, 0, sizeof(uname));
+            if (R[0]->auth_username[0] != '\0') {
+                for (q = 0; q < USERLEN && R[0]->auth_username[q]; q++) uname[q] = R[0]->auth_username[q];
+            } else if (R[0]->cli_username[0] == '~') {
+                for (q = 0; q < USERLEN && R[0]->cli_username[q]; q++) uname[q] = R[0]->cli_username[q];
+            } else if (R[0]->cli_username[0] != '\0') {
+                uname[0] = '~';
+                for (q = 0; q + 1 < USERLEN && R[0]->cli_username[q]; q++) uname[q + 1] = R[0]->cli_username[q];
+            }
+            for (k = 0; k < NSVC; k++) {
+                enum iauth_xquery_type ty;
+                if (!(o.queried[0] & (1u << k)) || !SV[k])
+                    continue;
+                ty = SV[k]->type;
+#ifdef EV_P
+                if (snapA.cli.more_mask != 0 && snapA.cli.password[0] != '\0') {
+                    VP_ASSERT(o.xq_fmt0[k][2] == 'M' && strncmp(o.xq_arg[k][2][0], arg1, 13) == 0, "C06: the answer to a challenge is forwarded as given");
+                    continue;
+                }
+#endif
+                if (ty == DRONECHECK || ty == COMBINED) {
+                    VP_ASSERT(o.xq_fmt0[k][0] == 'C' && o.xq_nargs[k][0] == 5, "C06: dronecheck / combined services get a CHECK line");
+                    VP_ASSERT(strncmp(o.xq_arg[k][0][0], R[0]->nickname, 13) == 0, "C06: CHECK carries the client's nick");
+                    VP_ASSERT(strncmp(o.xq_arg[k][0][1], uname, 13) == 0, "C06: CHECK carries the ident, else the claimed user name marked ~, within USERLEN");
+                    VP_ASSERT(strncmp(o.xq_arg[k][0][2], R[0]->text_addr, 13) == 0, "C06: CHECK carries the client's address");
+                    VP_ASSERT(strncmp(o.xq_arg[k][0][3], host, 13) == 0, "C06: CHECK carries the host name, else the address");
+                    VP_ASSERT(strncmp(o.xq_arg[k][0][4], R[0]->realname, 13) == 0, "C06: CHECK carries the real name");
+                } else
+                    VP_ASSERT(o.xq_fmt0[k][0] == 0, "C06: login services get no CHECK line");
+                if (ty == LOGIN || (ty == COMBINED && CL[0]->password[0] != '\0')) {
+                    VP_ASSERT(o.xq_fmt0[k][1] == 'L' && o.xq_nargs[k][1] == 1, "C06: login / combined services get a LOGIN line when a password is known");
+                    VP_ASSERT(strncmp(o.xq_arg[k][1][0], CL[0]->password, 13) == 0, "C06: LOGIN carries the account and password as the client sent them");
+                } else if (ty == LOGIN_IPR) {
+                    VP_ASSERT(o.xq_fmt0[k][1] == '2' && o.xq_nargs[k][1] == 4, "C06: login-ipr services get a LOGIN2 line");
+                    VP_ASSERT(strncmp(o.xq_arg[k][1][0], R[0]->text_addr, 13) == 0 && strncmp(o.xq_arg[k][1][1], host, 13) == 0
+                              && strncmp(o.xq_arg[k][1][2], uname, 13) == 0 && strncmp(o.xq_arg[k][1][3], CL[0]->password, 13) == 0,
+                              "C06: LOGIN2 carries address, host, user name and credentials of this client");
+                } else
+                    VP_ASSERT(o.xq_fmt0[k][1] == 0, "C06: no LOGIN line without a password or for a dronecheck service");
+            }
+        }
+#ifdef EV_P
+        if (pw_shape_ok && live(0)) {
+            /* what is stored and forwarded is the text after the modes: "<account> <password>" */
+            unsigned st2 = 0, q;
+            for (q = 0; q <= LPW; q++) {
+                if (st2 == 0 && arg1[q] == ' ') st2 = 1;
+                else if (st2 == 1 && arg1[q] != ' ') { VP_ASSERT(strcmp(CL[0]->password, arg1 + q) == 0, "C06: the stored credentials are the text after the mode prefix"); st2 = 2; }
+            }
+        }
+#endif
 #ifdef EV_P
         if (!pw_shape_ok && !(snapA.cli.more_mask != 0 && snapA.cli.password[0] != '\0')) {
             VP_ASSERT(o.n_x[0] == 0, "C06: a password lacking the <modes> <account> <password> shape is never forwarded");
@@ -434,6 +506,9 @@ void harness(void)
 #endif
     }
 
+#endif
+
+#if defined(CHECK_ALL) || defined(CHECK_C10)
     /* ====================== C10: bookkeeping ====================== */
     {
         unsigned expect_live = NREQ;
@@ -458,6 +533,13 @@ void harness(void)
                 VP_ASSERT(!vp_event_freed[0], "C10: the timer of a live request is kept");
         }
     }
+
+#endif
+
+    /* ====================== induction (part of every property's check) ====================== */
+    if (!o.verdict[0] && !expect_gone)
+        VP_ASSERT(live(0) && inv(R[0], CL[0], &g), "induction: the client the event was about satisfies the invariant again");
+    VP_ASSERT(svc_inv_post(), "induction: the service table satisfies its invariant again");
 
 #if defined(EV_N) || defined(EV_d) || defined(EV_n) || defined(EV_u) || defined(EV_U) || defined(EV_H) || defined(EV_X) || defined(EV_x) || defined(EV_TIMER)
     VP_COVER(o.n_accept[0] == 1 && o.verdict_cmd[0] == 'D', "client accepted without account");
